@@ -16,7 +16,7 @@ TECH = "machine-checked proof in Coq 8.16.1 about an executable Gallina model; m
 
 P = {
  "C01": dict(
-  text="Full on the class of C18, refuted beyond it. C01_routed_steps_do_not_cross: for a valid polygon inside the grid and every level within the index (exact pixel middles) no two routed steps — pairs of consecutive centres of the centre lists of polygon edges — cross properly: the Guibas-Marimont deformation argument completed (first contact of linearly moving segments by real analysis, sweep lemma at a real time, travel order of consecutive hot pixels, valid polygons have edges that touch only at common end points). C01_on_class: snapPolygon, valid polygon, every routed-and-cleaned ring of every requested level visits no pixel centre at three positions => no two edges of the returned geometry of a level cross (every returned edge is a routed step there, C18). Also: exact crossing oracle, sound validity oracle, half-pixel closeness, the sweep lemma, the partial steps (far source edges, same chain, no vertex inside an edge). C01_refuted / C01_refuted_implication: outside the class the statement is machine-checked FALSE for the faithful model on a valid polygon with a hole (finding F5), replayed on the implementation; there the implication is decided on every run by exact search over generated valid polygons; model tied by vm_compute correspondence on edge multisets.",
+  text="Full on the class of C18, refuted beyond it. C01_routed_steps_do_not_cross: for a valid polygon inside the grid and every level within the index — no assumption on the pixel middles, so also the deepest level of grids with an odd resolution such as WebMercatorQuad — no two routed steps — pairs of consecutive centres of the centre lists of polygon edges — cross properly: the Guibas-Marimont deformation argument completed (first contact of linearly moving segments by real analysis, sweep lemma at a real time, travel order of consecutive hot pixels, valid polygons have edges that touch only at common end points). C01_on_class: snapPolygon, valid polygon, every routed-and-cleaned ring of every requested level visits no pixel centre at three positions => no two edges of the returned geometry of a level cross (every returned edge is a routed step there, C18). Also: exact crossing oracle, sound validity oracle, half-pixel closeness, the sweep lemma, the partial steps (far source edges, same chain, no vertex inside an edge). C01_refuted / C01_refuted_implication: outside the class the statement is machine-checked FALSE for the faithful model on a valid polygon with a hole (finding F5), replayed on the implementation; there the implication is decided on every run by exact search over generated valid polygons; model tied by vm_compute correspondence on edge multisets.",
   note="Trusted: Coq kernel+vm_compute; AXIOMS (only for C01_routed_steps_do_not_cross and C01_on_class, no other theorem of the development): the Coq standard library's real numbers — ClassicalDedekindReals.sig_forall_dec, ClassicalDedekindReals.sig_not_dec, FunctionalExtensionality.functional_extensionality_dep (the first contact time of the deformation is irrational in general); hand-written Index/Snap model tied by correspondence (tie H) on every run and G2 for the leaf functions; float predicates modelled by exact integer versions (checked envelope); search is not proof outside the class. Known finding F5 attributed by mechanism.",
   tech=TECH + " (tie H + G2); exact-arithmetic search for the unproved global clause", ref="DESIGN.md 6 C01"),
  "C02": dict(
